@@ -65,6 +65,7 @@ class ProgressBar(object):
         self._min_seconds_between_redraws = 0
         self._max_seconds_between_redraws = 1
         self._write_count = 0
+        self._last_drawn = None
 
         if min_seconds_between_redraws > 0:
             self.redraw_freq = None
@@ -226,7 +227,12 @@ class ProgressBar(object):
         if not self._max:
             self._max = self._step
 
-        if self._step == self._max and not self._should_overwrite:
+        if (
+            self._step == self._max
+            and not self._should_overwrite
+            and self._last_drawn == (self._step, self._max)
+        ):
+            # The frame of the maximum is already the last line of the output
             return
 
         self.set_progress(self._max)
@@ -250,6 +256,7 @@ class ProgressBar(object):
                 self._format,
             )
         )
+        self._last_drawn = (self._step, self._max)
 
     def _overwrite_callback(self, matches):
         if hasattr(self, "_formatter_{}".format(matches.group(1))):
